@@ -54,6 +54,15 @@ Step ==
             /\ sync' = (sync /\ resOK /\ viewOK)
             /\ esync' = (esync /\ (~X.steps \/ treeOK))
             /\ A' = A1 /\ UNCHANGED X
+       [] r.e = "Refs" ->
+            \* the client is idle and still holds everything: the server's lookup counts are the kernel's
+            LET A1 == AcctFold(A, r.reqs, 1) IN
+            /\ TRUE = (/\ Proto(A, A1)
+                       /\ ~r.known \/
+                            /\ \A i \in DOMAIN A1.refs : Chk(i \in DOMAIN r.server /\ r.server[i] = A1.refs[i], "X05|proto|refcount-differs",
+                                                               <<i, A1.refs[i], IF i \in DOMAIN r.server THEN r.server[i] ELSE 0>>)
+                            /\ \A i \in DOMAIN r.server : Chk(i = "1" \/ i \in DOMAIN A1.refs, "X05|proto|table-holds-unreferenced-inode", <<i, r.server[i]>>))
+            /\ A' = A1 /\ UNCHANGED <<X, sync, esync>>
        [] r.e = "End" ->
             LET A1 == AcctFold(A, r.reqs, 1) IN
             /\ TRUE = (/\ ~sync \/ Chk(SameTree(r.export, r.shadow), "X05|end|tree", DiffCores(r.export, r.shadow))
